@@ -31,5 +31,17 @@ SPEC = dict(
         Leg('memcheck', 'h_route', 'plain', opts={'mode': 'route', 'msgs': '40', 'trav': '70'}, quick=32, thorough=1600, workers=16, valgrind=True),
     ],
     min_stats={'regress': {'regress_routed_messages': 25, 'regress_traversals': 1},
-               'route': {}},
+               'route': {'routed_messages': 50000, 'receiver_checks': 300000, 'deliveries_expected': 80000, 'bursts': 8000,
+                         'msgs_with_2_patterns': 9000, 'msgs_with_3_patterns': 6000, 'msgs_with_4_patterns': 3500, 'msgs_with_5plus_patterns': 1500,
+                         'multi_msgs_with_equal_depth_patterns': 14000, 'multi_msgs_two_depths': 10000, 'multi_msgs_three_plus_depths': 3000,
+                         'multi_msgs_equal_and_different_depths': 8000, 'conspiracy_candidate_receivers': 12000, 'msgs_with_conspiracy_candidate': 7000,
+                         'default_route_messages': 2000, 'broadcast_messages': 2000, 'msgs_with_filters': 10000, 'msgs_with_a_direct_lookup_level': 15000,
+                         'param_default_route_set': 2000, 'param_default_route_removed': 250, 'param_default_route_filters_removed': 60,
+                         'param_self_set': 900, 'param_self_removed': 400, 'param_removed_N2G': 300, 'param_removed_G2N': 150,
+                         'forged_session_fields': 20000, 'session_fields_checked': 30000, 'tree_mutations': 600, 'parameter_tables_checked': 5000,
+                         'traversal_comparisons': 100000, 'traversal_nodes_visited': 150000, 'traversals_direct_lookup_at_every_level': 8000,
+                         'traversals_iterated_at_every_level': 20000, 'traversals_mixing_lookup_and_iteration': 30000,
+                         'traversals_with_lookup_level_and_visits': 20000, 'traversals_with_filters': 12000, 'traversals_with_several_patterns': 40000,
+                         'traversals_rooted_at_session_node': 10000, 'traversals_rooted_at_host_node': 3000},
+               'memcheck': {'routed_messages': 1000, 'receiver_checks': 6000, 'traversal_comparisons': 2000}},
 )
